@@ -117,6 +117,26 @@ def run(ctx):
         corr_violation("recomputed tangent-plane distance of a returned trial phase is not negative in Coq's interval arithmetic / differs from the f64 value: %s"
                        % (bad[0]["coq_error"] or "")[:300], {"broken": "gen/C07/tpd_*.v", "files": bad[:5]}, True)
 
+    # ---- B0. trial states of define_trial_state: composition (interval goals) and state of aggregation (public new_npt)
+    n_trial_goals, bad = 0, []
+    for g in impl.get("trial_goals", []):
+        out = res[os.path.join(ctx.gen, g["file"])]
+        obligations += 1
+        n_trial_goals += len(g["trials"])
+        if out["rc"] == 0:
+            discharged += 1
+        else:
+            bad.append({"file": g["file"], "coq_error": V.coq_error(out["out"]), "trials": g["trials"][:4]})
+    if bad:
+        corr_violation("composition of a trial state differs from the model TpdC07.trial_liquid / trial_vapor: %s" % (bad[0]["coq_error"] or "")[:300],
+                       {"broken": "correspondence gen/C07/trial_*.v (define_trial_state)", "files": bad[:4]})
+    if impl["tie"].get("trial_mismatch"):
+        m = impl["tie"]["trial_mismatch"]
+        corr_violation("define_trial_state does not create the trial phase of the model (N nearly pure LIQUID-like trials x_k = 0.99, one VAPOUR-like ideal-vapour estimate) on %d of %d trial states; first: %s"
+                       % (len(m), impl["tie"]["trial_states_compared_with_the_model_of_define_trial_state"], json.dumps(m[0])[:600]),
+                       {"broken": "correspondence define_trial_state (hooked) vs State::new_npt(T, p, model composition, Liquid / Vapor)", "cases": m[:10],
+                        "sys": m[0]["key"].get("sys"), "spec": m[0]["key"].get("spec")})
+
     # ---- B. step formulas (substitution map, 1 - sum y, Newton gradient / Hessian / step / frozen objective)
     n_steps, bad = 0, []
     kinds = {}
@@ -258,7 +278,7 @@ def run(ctx):
     cov = {
         "obligations": obligations,
         "discharged": discharged,
-        "checker_cmd": "make -C coq (coqc 8.16.1, full .vo: theories/TpdC07.v theories/TpdDerivC07.v theories/FlashCascadeC07.v props/C07.v) ; coqc coq/gen/C07/{tpd,step,ctrl,stab,triv,casc}_*.v",
+        "checker_cmd": "make -C coq (coqc 8.16.1, full .vo: theories/TpdC07.v theories/TpdDerivC07.v theories/FlashCascadeC07.v props/C07.v) ; coqc coq/gen/C07/{tpd,trial,step,ctrl,stab,triv,casc}_*.v",
         "trusted_base": [
             "Coq 8.16.1 kernel incl. the VM (vm_compute)",
             "standard-library axioms reported by Print Assumptions (classical reals, classic, functional_extensionality_dep); the Q-valued theorems are closed under the global context",
@@ -274,6 +294,7 @@ def run(ctx):
         "axioms_reported": lib["axioms"],
         "tpd_interval_goals_(returned_trial_phases,_tpd<0_and_|model-f64|<=1e-12)": n_tpd_goals,
         "trial_phases_recomputed_in_f64": sup.get("trial_phases_recomputed_in_f64"),
+        "trial_state_composition_goal_groups": n_trial_goals,
         "step_goal_groups": n_steps,
         "step_goal_kinds": kinds,
         "control_skeleton_runs_compared": n_ctrl,
@@ -283,7 +304,7 @@ def run(ctx):
         "flash_start_cascade_runs_compared": n_casc,
         "flashes_with_initial_state": impl.get("sweep"),
         "is_trivial_threshold_ties": near,
-        "tie": {k: v for k, v in impl["tie"].items() if k != "formula_mismatch"},
+        "tie": {k: v for k, v in impl["tie"].items() if k not in ("formula_mismatch", "trial_mismatch")},
         "tolerances": {"tpd_model_vs_f64": 1e-12, "substitution_map_rel": 1e-12, "newton_err_and_objective_rel": 1e-11,
                        "newton_linear_system_residual": "1e-6 * (|grad_i| + sum_j |H_ij delta_j|) + 1e-11", "returned_tpd_vs_model_formula_rel": 1e-10,
                        "trial_phase_pressure": "|dp| <= 1e-8 p + 1e-9 (reduced units)", "known_finding_noise_band_tpd": classes.get("marginal_equilibrium_phase", {}).get("key", {}).get("band")},
